@@ -467,3 +467,43 @@ def quiescent_lost(sc, sysm):
   """every poster has returned and nobody can move, yet an event is still queued (lost wake-up) - needs no ghost state"""
   done = posters_done(sc, sysm)
   return lambda B, st: B.and_(done(B, st), B.not_(B.eq(st["D.len"], B.const(0))))
+
+
+# ---- publishers scenario (C08 with several publishing threads) ----------------------------------------------------------------------------
+def _publish_pairs(sc):
+  """(a, b): publish call a had returned before call b began - same thread and earlier, or another thread's call with the ghost flag"""
+  calls = [tuple(c) for c in sc.info["calls"]]
+  return [(a, b) for a in calls for b in calls if a != b and (a[0] != b[0] or a[1] < b[1])]
+
+
+def publish_order_bad(sc, sysm):
+  """every publisher has finished and there are two publish calls, the first of which had returned before the second began, whose fabric
+  events of one kind are not numbered in that order (equal or reversed sequence numbers: the priority queue no longer keeps them in
+  publish order); or somebody crashed"""
+  crash = any_crash(sc, sysm)
+  n = len(sc.info["counts"])
+
+  def f(B, st):
+    bad = []
+    for (a, b) in _publish_pairs(sc):
+      hb = B.true() if a[0] == b[0] else B.eq(st["g.hb.%d.%d.%d.%d" % (a + b)], B.const(1))
+      for kind in ("fifo", "lifo"):
+        bad.append(B.and_(hb, B.not_(B.ult(st["g.seq.%s.%d.%d" % ((kind,) + a)], st["g.seq.%s.%d.%d" % ((kind,) + b)]))))
+    return B.or_(crash(B, st), B.and_(B.and_(*[ended(sysm, B, st, t) for t in range(n)]), B.or_(*bad)))
+  return f
+
+
+def publish_ordered_across_threads(sc, sysm):
+  """vacuity guard: everybody finished and at least one call of one thread had returned before a call of another thread began"""
+  n = len(sc.info["counts"])
+  calls = [tuple(c) for c in sc.info["calls"]]
+
+  def f(B, st):
+    flags = [B.eq(st["g.hb.%d.%d.%d.%d" % (a + b)], B.const(1)) for a in calls for b in calls if a[0] != b[0]]
+    return B.and_(B.and_(*[ended(sysm, B, st, t) for t in range(n)]), B.or_(*flags))
+  return f
+
+
+def publishers_open(sc, sysm):
+  n = len(sc.info["counts"])
+  return lambda B, st: B.or_(*[B.not_(ended(sysm, B, st, t)) for t in range(n)])
